@@ -1,2 +1,164 @@
-import Tftp.Model.Sender
-import Tftp.Model.Receiver
+import Tftp.Lemmas.Receiver
+import Tftp.Lemmas.Sender
+/-!
+# C02 — Upload fidelity: stored file = in-order blocks once each; ACK implies stored
+
+`RReach c s`: `s` is reachable by `receive_file` under *some* arrival history — any sequence of DATA
+datagrams with arbitrary numbers and payloads (duplicates, reordering, blocks from the future),
+peer ERRORs, and failed receives (time-outs, undecodable datagrams, stray ACK/OACK/requests).
+-/
+namespace Tftp
+
+inductive RReach (c : RCfg) : RState → Prop where
+  | init : RReach c (rInit c)
+  | step (s : RState) (ev : REv) : RReach c s → RReach c (rStep c s ev).1
+
+theorem rreach_inv (c : RCfg) (hw1 : 1 ≤ c.w) (hw : c.w < 65536) (s : RState) (h : RReach c s) : RInv c s := by
+  induction h with
+  | init => exact rInit_inv c hw1
+  | step s ev _ ih => exact (rStep_good c hw s ih ev).1
+
+/-- **ACK implies stored, and only in-sequence blocks are acknowledged.** In every reachable state, for
+every next event: each ACK the receiver emits carries `K mod 65536` where `K` is the number of blocks
+received in sequence so far, and at that instant the file on disk already equals the concatenation
+of those `K` payloads in order (nothing is left pending in memory). -/
+theorem c02_ack_implies_stored (c : RCfg) (hw1 : 1 ≤ c.w) (hw : c.w < 65536) (s : RState) (h : RReach c s)
+    (ev : REv) :
+    ∀ a ∈ (rStep c s ev).2,
+      a.n = (rStep c s ev).1.received.length % 65536 ∧
+      a.file.content = (rStep c s ev).1.received.flatten ∧
+      (rStep c s ev).1.win.elems = [] := by
+  intro a ha
+  have := (rStep_good c hw s (rreach_inv c hw1 hw s h) ev).2.1 a ha
+  simpa [RState.received] using this
+
+/-- **each block once, in order.** The list of accepted payloads changes only by appending the payload
+of a DATA datagram whose number is (count so far + 1) mod 65536; duplicates, blocks from the future,
+stray packets and failures never reach the file. -/
+theorem c02_accept_in_sequence (c : RCfg) (hw1 : 1 ≤ c.w) (hw : c.w < 65536) (s : RState) (h : RReach c s)
+    (ev : REv) :
+    (rStep c s ev).1.received = s.received ∨
+    ∃ n p, ev = .data n p ∧ n = (s.received.length + 1) % 65536 ∧ (rStep c s ev).1.received = s.received ++ [p] := by
+  rcases (rStep_good c hw s (rreach_inv c hw1 hw s h) ev).2.2 with h1 | ⟨n, p, h1, h2, h3⟩
+  · left; unfold RState.received; rw [h1]
+  · right
+    refine ⟨n, p, h1, by simpa [RState.received] using h2, ?_⟩
+    unfold RState.received; rw [h3]; simp
+
+/-- what is on disk plus what is pending in the window is always exactly the accepted payloads in
+order: the file only ever grows by appending them -/
+theorem c02_file_is_prefix (c : RCfg) (hw1 : 1 ≤ c.w) (hw : c.w < 65536) (s : RState) (h : RReach c s) :
+    s.win.file.content ++ s.win.elems.flatten = s.received.flatten :=
+  (rreach_inv c hw1 hw s h).stored
+
+/-- **final file.** When the receiver ends successfully the file equals the concatenation of the
+accepted payloads; the last one is the first short one, all earlier ones are full blocks. -/
+theorem c02_final_file (c : RCfg) (hw1 : 1 ≤ c.w) (hw : c.w < 65536) (s : RState) (h : RReach c s)
+    (hok : s.status = .ok) :
+    s.win.file.content = s.received.flatten ∧
+    ∃ p rest, s.accepted = p :: rest ∧ p.length < c.b ∧ ∀ q ∈ rest, c.b ≤ q.length := by
+  have hi := rreach_inv c hw1 hw s h
+  obtain ⟨he, hx⟩ := hi.ok_final hok
+  refine ⟨?_, hx⟩
+  have := hi.stored
+  rw [he] at this
+  simpa using this
+
+/-- reachable when every arriving DATA datagram is a block of the file `f` (any order, loss, duplication) -/
+inductive RReachFrom (c : RCfg) (f : Bytes) : RState → Prop where
+  | init : RReachFrom c f (rInit c)
+  | step (s : RState) (ev : REv) : RReachFrom c f s →
+      (∀ n p, ev = .data n p → ∃ k, 1 ≤ k ∧ k ≤ nblocks c.b f ∧ n = k % 65536 ∧ p = blk c.b f k) →
+      RReachFrom c f (rStep c s ev).1
+
+theorem RReachFrom.reach {c : RCfg} {f : Bytes} {s : RState} (h : RReachFrom c f s) : RReach c s := by
+  induction h with
+  | init => exact .init
+  | step s ev _ _ ih => exact .step s ev ih
+
+/-- **conformant sender, at most 65535 blocks.** If every DATA datagram that arrives — in whatever
+order, with whatever loss and duplication — is a block `(k mod 65536, blk k)` of one file `f`, then in
+every reachable state the accepted payloads are exactly blocks `1..j` of `f` in order, and a successful
+end means the stored file is byte-identical to `f`. -/
+theorem c02_conformant_sender (c : RCfg) (hb : 0 < c.b) (hw1 : 1 ≤ c.w) (hw : c.w < 65536) (f : Bytes)
+    (hN : nblocks c.b f ≤ 65535) (s : RState) (h : RReachFrom c f s) :
+    s.received = (List.range s.received.length).map (fun i => blk c.b f (i + 1)) ∧
+    s.received.length ≤ nblocks c.b f ∧
+    (s.status = .ok → s.win.file.content = f) := by
+  have key : s.received = (List.range s.received.length).map (fun i => blk c.b f (i + 1)) ∧
+      s.received.length ≤ nblocks c.b f := by
+    induction h with
+    | init => simp [rInit, RState.received]
+    | step s ev hr hconf ih =>
+      obtain ⟨ih1, ih2⟩ := ih
+      have hinv := rreach_inv c hw1 hw s hr.reach
+      rcases c02_accept_in_sequence c hw1 hw s hr.reach ev with h1 | ⟨n, p, hev, hn, h3⟩
+      · rw [h1]; exact ⟨ih1, ih2⟩
+      · -- a block was accepted: the receiver was running
+        have hrun : s.status = .running := by
+          cases hst : s.status with
+          | running => rfl
+          | ok =>
+            exfalso
+            have : rStep c s ev = (s, []) := by unfold rStep; simp [hst]
+            rw [this] at h3
+            have := congrArg List.length h3
+            simp at this
+          | failed =>
+            exfalso
+            have : rStep c s ev = (s, []) := by unfold rStep; simp [hst]
+            rw [this] at h3
+            have := congrArg List.length h3
+            simp at this
+        obtain ⟨k, hk1, hkN, hnk, hpk⟩ := hconf n p hev
+        -- all accepted so far are full blocks, so fewer than N have been accepted
+        have hlt : s.received.length < nblocks c.b f := by
+          by_cases hz : s.received.length = 0
+          · rw [hz]; unfold nblocks; exact Nat.succ_pos _
+          · have hpos : 1 ≤ s.received.length := by omega
+            have hlast : s.received[s.received.length - 1]? = some (blk c.b f (s.received.length - 1 + 1)) := by
+              rw [ih1]
+              simp only [List.length_map, List.length_range]
+              rw [List.getElem?_map, List.getElem?_range (by omega)]
+              rfl
+            have hmem : blk c.b f (s.received.length - 1 + 1) ∈ s.accepted := by
+              have := List.mem_of_getElem? hlast
+              simpa [RState.received] using this
+            have hfull := hinv.full_before hrun _ hmem
+            have hne : s.received.length ≠ nblocks c.b f := by
+              intro he
+              have := (blk_length_lt_iff c.b hb f s.received.length hpos (by omega)).mpr he
+              rw [show s.received.length - 1 + 1 = s.received.length from by omega] at hfull
+              omega
+            omega
+        have hk : k = s.received.length + 1 := by
+          have h1 : k % 65536 = k := Nat.mod_eq_of_lt (by omega)
+          have h2 : (s.received.length + 1) % 65536 = s.received.length + 1 := Nat.mod_eq_of_lt (by omega)
+          omega
+        rw [h3]
+        refine ⟨?_, by simp; omega⟩
+        simp only [List.length_append, List.length_singleton]
+        rw [List.range_succ, List.map_append, ← ih1, hpk, hk]
+        rfl
+  refine ⟨key.1, key.2, ?_⟩
+  intro hok
+  obtain ⟨hcont, p, rest, hacc, hshort, _⟩ := c02_final_file c hw1 hw s h.reach hok
+  have hlen : s.received.length = rest.length + 1 := by simp [RState.received, hacc]
+  have hp : p = blk c.b f s.received.length := by
+    have h1 : s.received[s.received.length - 1]? = some p := by
+      simp [RState.received, hacc]
+    rw [key.1] at h1
+    simp only [List.length_map, List.length_range] at h1
+    rw [List.getElem?_map, List.getElem?_range (by omega)] at h1
+    simp at h1
+    rw [← h1]; congr 1; omega
+  have hfin : s.received.length = nblocks c.b f := by
+    rw [hp] at hshort
+    exact (blk_length_lt_iff c.b hb f _ (by omega) key.2).mp hshort
+  rw [hcont, key.1, blocks_flatten, hfin, take_all_blocks c.b hb f]
+
+/-! non-vacuity: a reachable successful state with duplicates and a stray failure on the way -/
+example : (rRun { b := 2, w := 2, rep := 1, cleanOnError := true }
+    [.data 1 [1, 2], .data 1 [1, 2], .fail, .data 2 [3, 4], .data 3 [5]]).2.status = .ok := by decide
+
+end Tftp
